@@ -21,6 +21,7 @@ func guardedLeaves(fset *token.FileSet, body *ast.BlockStmt, rename func(string)
 		return rename(strings.Join(strings.Fields(b.String()), " "))
 	}
 	var out []string
+	litCount := 0
 	emit := func(guards []string, what string) {
 		gs := make([]string, len(guards))
 		for i, x := range guards {
@@ -98,10 +99,73 @@ func guardedLeaves(fset *token.FileSet, body *ast.BlockStmt, rename func(string)
 				}
 				h += " range " + text(x.X)
 				walk(with(guards, h), x.Body.List)
+			case *ast.TypeSwitchStmt:
+				if x.Init != nil {
+					emit(guards, text(x.Init))
+				}
+				tag := text(x.Assign)
+				for _, c := range x.Body.List {
+					cc := c.(*ast.CaseClause)
+					g := tag + " default"
+					if cc.List != nil {
+						var vs []string
+						for _, v := range cc.List {
+							vs = append(vs, text(v))
+						}
+						g = tag + " in {" + strings.Join(vs, ", ") + "}"
+					}
+					if len(cc.Body) == 0 {
+						emit(with(guards, g), "(nothing)")
+					}
+					walk(with(guards, g), cc.Body)
+				}
+			case *ast.SelectStmt:
+				for _, c := range x.Body.List {
+					cc := c.(*ast.CommClause)
+					g := "select default"
+					if cc.Comm != nil {
+						g = "select " + text(cc.Comm)
+					}
+					if len(cc.Body) == 0 {
+						emit(with(guards, g), "(nothing)")
+					}
+					walk(with(guards, g), cc.Body)
+				}
+			case *ast.LabeledStmt:
+				emit(guards, "label "+x.Label.Name)
+				walk(guards, []ast.Stmt{x.Stmt})
 			case *ast.BlockStmt:
 				walk(guards, x.List)
 			default:
-				emit(guards, text(s))
+				// function literals inside the statement: the statement is written with their bodies elided, the bodies follow
+				// leaf by leaf under the guard "in func literal <k> of <function head>"
+				var lits []*ast.FuncLit
+				ast.Inspect(s, func(n ast.Node) bool {
+					if fl, ok := n.(*ast.FuncLit); ok {
+						lits = append(lits, fl)
+						return false
+					}
+					return true
+				})
+				if len(lits) == 0 {
+					emit(guards, text(s))
+					break
+				}
+				saved := make([]*ast.BlockStmt, len(lits))
+				for i, fl := range lits {
+					saved[i] = fl.Body
+					fl.Body = &ast.BlockStmt{}
+				}
+				head := text(s)
+				for i, fl := range lits {
+					fl.Body = saved[i]
+				}
+				emit(guards, head)
+				for i, fl := range lits {
+					litCount++
+					_ = i
+					walk(with(guards, fmt.Sprintf("in func literal #%d", litCount)), fl.Body.List)
+				}
 			}
 		}
 	}
